@@ -172,6 +172,16 @@ impl SystemRunner {
         // `run` turns exit code 0 into Ok and every non-zero code into an error   [C09]
         r is Ok <==> self.stop_rx@ == Ok::<i32, RecvError>(0),
 //@end
+
+//@extract file=actix-rt/src/system.rs item="impl SystemRunner / fn block_on" ret=r props=C10 name=system::runner_block_on
+//@spec
+    ensures r == fut@,   // [C10] `block_on` returns exactly its future's output
+//@end
+
+//@extract file=actix-rt/src/system.rs item="impl SystemRunner / fn runtime" ret=r props=C10 name=system::runner_runtime
+//@spec
+    ensures *r == self.rt,   // [C10] the runtime the system runs on, not another one
+//@end
 }
 
 impl ArbiterHandle {
